@@ -10,6 +10,8 @@ CH = "grin_chain::chain::"
 
 
 def run(c):
+    import r9
+    c.r9("C03")
     # --- who may move the heads
     c.r3("head-writers", "grin_chain::store::Batch::save_body_head", {
         P + "update_head", CH + "Chain::reset_chain_head", CH + "Chain::reset_chain_head_to_genesis",
